@@ -80,7 +80,7 @@ theorem step_dinv {s : St} (h : DInv s) (hs : SInv s) (cfg : Cfg) (e : Ev) : DIn
             have := (hs.pristine h1 h2).2.2; rw [this] at hj'; cases hj'
         exact dinv_irrelevant (rejoinAfterError_dinv h0 w0 (fun _ => by simp) cfg e) rfl rfl rfl rfl rfl rfl
       | ok m g l n =>
-        simp only []
+        simp only [abandonHb_eq, andThen_fst]
         split
         · exact dinv_move h hnp (by simp) rfl rfl rfl (fun x => x)
         · split
